@@ -1,6 +1,7 @@
 """Build steps: Coq development, extracted OCaml runner, Rust harness (from /repo's working tree)."""
 import os, re, shutil, glob, time
 from .common import *
+from .common import HARNESS_SRC
 
 FORBIDDEN = re.compile(
     r"\b(Admitted|admit|Axiom|Axioms|Parameter|Parameters|Conjecture|Conjectures|Abort All)\b|Admit Obligations|"
@@ -158,7 +159,16 @@ def build_runner():
 
 def build_harness(release=False):
     """cargo build of the harness against /repo's current working tree (path dependencies)"""
-    with Lock("harness"):
+    with Lock("harness-" + os.path.basename(HARNESS_DIR)):
+        if HARNESS_DIR != HARNESS_SRC:
+            os.makedirs(os.path.join(HARNESS_DIR, "src"), exist_ok=True)
+            for f in os.listdir(os.path.join(HARNESS_SRC, "src")):
+                src, dst = os.path.join(HARNESS_SRC, "src", f), os.path.join(HARNESS_DIR, "src", f)
+                if not os.path.exists(dst) or open(src).read() != open(dst).read():
+                    shutil.copyfile(src, dst)
+            toml = open(os.path.join(HARNESS_SRC, "Cargo.toml")).read().replace('"/repo/', '"' + REPO + '/')
+            if not os.path.exists(os.path.join(HARNESS_DIR, "Cargo.toml")) or open(os.path.join(HARNESS_DIR, "Cargo.toml")).read() != toml:
+                open(os.path.join(HARNESS_DIR, "Cargo.toml"), "w").write(toml)
         shutil.copyfile(os.path.join(REPO, "Cargo.lock"), os.path.join(HARNESS_DIR, "Cargo.lock"))
         cmd = ["cargo", "build", "--offline", "--quiet"] + (["--release"] if release else [])
         rc, out, err = run(cmd, cwd=HARNESS_DIR, timeout=2400,
